@@ -33,8 +33,12 @@ fn big_stack<T: Send + 'static>(f: impl FnOnce() -> T + Send + 'static) -> T {
 pub fn main_for(prop: &'static str) {
     let ctx = Ctx::new(prop, "release");
     if let Some(v) = ctx.replay_case() {
-        guard::enter(&v.to_string());
+        let _guard_scope = guard::scoped(&v.to_string());
         let fam = v["family"].as_str().unwrap_or("").to_string();
+        if fam == "huge_delay" {
+            let (k, l, sh) = (v["delay"].as_u64().unwrap_or(0) as usize, v["frames"].as_u64().unwrap_or(0) as usize, v["shape"].as_u64().unwrap_or(0) as usize);
+            ctx.finish_replay(catch(|| huge_delay_case(k, l, sh)).unwrap_or_else(|e| Some(("adaptor.huge_delay".into(), e))).map(|x| format!("{}: {}", x.0, x.1)));
+        }
         if fam == "wide" {
             let (ch, n, r) = (v["channels"].as_u64().unwrap_or(0) as usize, v["frames"].as_u64().unwrap_or(0) as usize, v["rem"].as_u64().unwrap_or(0) as usize);
             ctx.finish_replay(big_stack(move || catch(|| wide_dispatch(ch, n, r)).unwrap_or_else(|e| Some(("wide.panic".into(), e)))).map(|x| format!("{}: {}", x.0, x.1)));
@@ -61,7 +65,8 @@ pub fn main_for(prop: &'static str) {
         progs.extend(depth2(&ls));
         progs.extend(interleaved_lengths(ch));
         // scale probes: longer sources under every depth-1 program
-        progs.extend(depth1(&[Leaf::Probe(7), Leaf::Iter(9), Leaf::Inter((5 * ch + 2) as u8), Leaf::GenMut]));
+        progs.extend(depth1(&[Leaf::Probe(7), Leaf::Iter(9), Leaf::Inter((5 * ch + 2) as u16), Leaf::GenMut]));
+        progs.extend(long_programs(ch));
         if !quick {
             // depth-3 trees over a small alphabet
             progs.extend(small_trees(3, &[Leaf::Probe(2), Leaf::Iter(1)], &[Un::Delay(1), Un::Clip]));
@@ -72,7 +77,7 @@ pub fn main_for(prop: &'static str) {
         ctx.set(&format!("programs.{fam}"), json!(progs.len()));
         progs.par_iter().for_each(|p| {
             let case = json!({"family": fam, "program": p.show()});
-            guard::enter(&case.to_string());
+            let _guard_scope = guard::scoped(&case.to_string());
             evals.fetch_add(1, Relaxed);
             nexts.fetch_add((p.longest_source(ch) + p.total_delay() + 3) as u64, Relaxed);
             match catch(|| run_one(prop, fam, p)) {
@@ -86,6 +91,27 @@ pub fn main_for(prop: &'static str) {
             }
             guard::leave();
         });
+    }
+    {
+        // scale probe: delays far beyond any runnable horizon
+        let mut cases = 0u64;
+        for k in HUGE_DELAYS {
+            for l in [0usize, 3] {
+                for sh in 0..5usize {
+                    let case = json!({"family": "huge_delay", "delay": k as u64, "frames": l, "shape": sh});
+                    let _guard_scope = guard::scoped(&case.to_string());
+                    cases += 1;
+                    match catch(|| huge_delay_case(k, l, sh)) {
+                        Ok(None) => ctx.observe(common::fnv_str(&format!("hd{k}/{l}/{sh}"))),
+                        Ok(Some((key, m))) => ctx.violation(&key, case, m, Some(&|| huge_delay_case(k, l, sh).map(|x| x.1))),
+                        Err(e) => ctx.violation("adaptor.huge_delay", case, format!("delay({k}) over {l} frames, shape {sh}: panicked: {e}"), None),
+                    }
+                    guard::leave();
+                }
+            }
+        }
+        evals.fetch_add(cases, Relaxed);
+        ctx.set("huge_delay_cases", json!(cases));
     }
     if prop == "C05" {
         // scale probe: the end-of-stream clauses for very wide frames ("every channel count")
@@ -102,7 +128,7 @@ pub fn main_for(prop: &'static str) {
                         for n in 0..=3usize {
                             for r in [0usize, 1, ch - 1] {
                                 let case = json!({"family": "wide", "channels": ch, "frames": n, "rem": r});
-                                guard::enter(&case.to_string());
+                                let _guard_scope = guard::scoped(&case.to_string());
                                 cases += 1;
                                 match catch(|| wide_dispatch(ch, n, r)) {
                                     Ok(None) => ctx.observe(common::fnv_str(&format!("wide{ch}/{n}/{r}"))),
@@ -129,9 +155,9 @@ pub fn main_for(prop: &'static str) {
     ctx.set("exhaustive", json!(true));
     ctx.set("exhaustive_scope", json!(format!("every adaptor tree of depth <=2 and every unary stack of depth <={} over the leaf alphabet, 4 frame families; right operands of add_amp/mul_amp are unary stacks of depth <=1 in the companion family; deeper programs are not explored (thorough adds every depth-3 tree over 2 leaves x 2 unary adaptors, about 2.7 million per family)", if quick { 3 } else { 4 })));
     if prop == "C04" {
-        ctx.rule("programs: leaves = instrumented probe (length 0..3), from_iter, from_interleaved_samples_iter, equilibrium, gen, gen_mut; unary = map, scale_amp(0.5), scale_amp(-1), scale_amp(0), scale_amp(1), offset_amp, scale_amp_per_channel, offset_amp_per_channel, clip_amp, inspect, delay(0|1|2); binary = add_amp, mul_amp (right operand in the Signed / Float companion family), zip_map; all trees of depth <=2, all unary stacks to depth 3 (quick) / 4 (thorough); families f32, [i16;2], [u8;3], [f64;2], [i32;2], [i64;1] (the last two with values and clip thresholds that do not fit the Float companion's mantissa); each program run for longest source + total delay + 3 calls: frame n == interpreter (real Frame op applied pointwise, clip = clamp of the signed amplitude, delay = k equilibrium frames), every probe pulled exactly once per call and not at all while a delay above it is emitting silence, inspect saw exactly the frames that passed, and for every j <= horizon the program built over a borrowed probe, run j steps and dropped leaves the probe at frame j - delays; non-trivial = a program with at least one adaptor, distinct by (family, program)");
+        ctx.rule("programs: leaves = instrumented probe (length 0..3), from_iter, from_interleaved_samples_iter, equilibrium, gen, gen_mut; unary = map, scale_amp(0.5), scale_amp(-1), scale_amp(0), scale_amp(1), offset_amp, scale_amp_per_channel, offset_amp_per_channel, clip_amp, inspect, delay(0|1|2); scale probes: sources of 7, 9, 70 and 300 frames under every depth-1 program and delays of 31, 255, 256, 257 and 1000 frames below and above every unary adaptor and beside every binary one, and delay(k) for k in {2^16, 2^16+1, 2^31+1, 2^32, 2^32+3, 2^48+2, 2^63, MAX-1, MAX} observed for its first 40 frames (silence, no pull, not exhausted); binary = add_amp, mul_amp (right operand in the Signed / Float companion family), zip_map; all trees of depth <=2, all unary stacks to depth 3 (quick) / 4 (thorough); families f32, [i16;2], [u8;3], [f64;2], [i32;2], [i64;1] (the last two with values and clip thresholds that do not fit the Float companion's mantissa); each program run for longest source + total delay + 3 calls: frame n == interpreter (real Frame op applied pointwise, clip = clamp of the signed amplitude, delay = k equilibrium frames), every probe pulled exactly once per call and not at all while a delay above it is emitting silence, inspect saw exactly the frames that passed, and for every j <= horizon the program built over a borrowed probe, run j steps and dropped leaves the probe at frame j - delays; non-trivial = a program with at least one adaptor, distinct by (family, program)");
     } else {
-        ctx.rule("same program space as C04; per program: is_exhausted() before and after every next() == (calls >= T) with T from the exhaustion algebra (leaf: number of complete frames; unary: forwarded; delay(k): T+k; binary: min), 3 further calls return the interpreter's frames, until_exhausted() and lift() yield exactly T frames then None three times, into_interleaved_samples (iterator and next_sample) yields exactly T x channels samples in channel order then None, take(n) for n in 0..=T+2 yields exactly n frames with exact len/size_hint; interleaved sources of every sample count 0..=3N+1; scale probe: [i32; N] frames for the listed wide channel counts (byte and 16-bit boundaries included), 0..=3 frames plus 0 / 1 / N-1 trailing samples: from_interleaved_samples_iter, until_exhausted, into_interleaved_samples (both forms), take, add_amp of unequal lengths; non-trivial = a program with at least one adaptor, distinct by (family, program)");
+        ctx.rule("same program space as C04; per program: is_exhausted() before and after every next() == (calls >= T) with T from the exhaustion algebra (leaf: number of complete frames; unary: forwarded; delay(k): T+k; binary: min), 3 further calls return the interpreter's frames, until_exhausted() and lift() yield exactly T frames then None three times, into_interleaved_samples (iterator and next_sample) yields exactly T x channels samples in channel order then None, take(n) for n in 0..=T+2 yields exactly n frames with exact len/size_hint; interleaved sources of every sample count 0..=3N+1; scale probes: delay(k) for k from 2^16 to usize::MAX stays live and silent without touching its source for the first 40 calls, over an empty and a 3-frame source; [i32; N] frames for the listed wide channel counts (byte and 16-bit boundaries included), 0..=3 frames plus 0 / 1 / N-1 trailing samples: from_interleaved_samples_iter, until_exhausted, into_interleaved_samples (both forms), take, add_amp of unequal lengths; non-trivial = a program with at least one adaptor, distinct by (family, program)");
     }
     ctx.sample(json!({"family":"[u8;3]","program":"add(delay1(probe3),scale_neg(iter2))"}));
     ctx.sample(json!({"family":"f32","program":"clip(zip(probe1,delay2(genmut)))"}));
